@@ -75,6 +75,12 @@ Fixpoint c_store_list (buf : list N) (i : nat) (l : list N) : option (list N) :=
 Definition c_snprintf (buf : list N) (pos n : nat) (text : list N) : option (list N) :=
   if (n =? 0)%nat then Some buf else c_store_list buf pos (firstn (n - 1) text ++ [0]).
 
+(* snprintf(a, n, ...) into a local array a of at least n bytes: the bytes of a that are DEFINED
+   afterwards (the others are indeterminate; the guards of the generated code refuse to read
+   behind the list) *)
+Definition c_snprintf_obj (n : nat) (text : list N) : list N :=
+  if (n =? 0)%nat then [] else firstn (n - 1) text ++ [0].
+
 (* ---- C strings: an object is the list of its bytes, terminator included ---- *)
 Fixpoint c_strlen (s : list N) : nat :=
   match s with [] => O | x :: r => if x =? 0 then O else S (c_strlen r) end.
@@ -709,7 +715,7 @@ Ltac tie_leaf :=
   first [ reflexivity
         | solve [ fmt_congr; fmt_lia ]
         | exfalso; fmt_lia
-        | exfalso; congruence ].
+        | congruence ].
 
 Ltac tie_go n :=
   tie_norm; tie_rewrites; tie_norm;
@@ -844,7 +850,7 @@ Definition fam_fmt : list fmtspec :=
 Definition fam_u32 : list N := [0; 7; 255; 4096; 123456789; 2147483647; 2147483648; 4294967295].
 (* print_format_num: input = ((fmt, val), (buf, pos)) *)
 Definition fam_print_num : list ((fmtspec * N) * (list N * nat)) :=
-  list_prod (list_prod fam_fmt fam_u32) fam_cursor.
+  flat_map (fun c => map (fun x => (x, c)) (list_prod fam_fmt fam_u32)) fam_cursor.
 (* print_nstring_to_buf: input = ((str, len), (buf, pos)), len <= length str *)
 Definition fam_text : list (list N) := [[65; 66; 67]; [65]; []; [92; 92; 0]; [65; 66; 67; 68; 69; 70; 0]].
 Definition fam_print_nstring : list ((list N * nat) * (list N * nat)) :=
